@@ -36,10 +36,13 @@ PROGRAMS = {
                             b'STORE 3 +FLAGS.SILENT (\\Deleted)'],
                  lambda i: [b'EXPUNGE']),
     'CHECK': (SEL, lambda i: [b'CHECK']),
+    # the opposite direction (the two UID lists are locked in the other order)
+    'MOVE-from-a': (lambda i: [b'SELECT a'], lambda i: [b'MOVE 1 INBOX']),
+    'COPY-from-a': (lambda i: [b'SELECT a'], lambda i: [b'COPY 1 INBOX']),
 }
 ACTORS = ['MOVE1', 'MOVE1:2', 'COPY1:2', 'MULTIAPPEND', 'EXPUNGE1']
 OTHERS = ['STORE1', 'FETCH1', 'MOVE1-too', 'COPY1', 'SELECT', 'NOOP', 'APPEND',
-          'EXPUNGE3', 'CHECK']
+          'EXPUNGE3', 'CHECK', 'MOVE-from-a', 'COPY-from-a']
 INITIAL = {'INBOX': ['i1', 'i2', 'i3'], 'a': ['a1', 'a2']}
 
 
@@ -80,7 +83,8 @@ def judge(layout, names, deliver, ex, info):
     for t in ('i1', 'i2', 'i3'):
         n = allt.count(t)
         copies = sum(1 for c in copiers
-                     if t in {'COPY1:2': ['i1', 'i2'], 'COPY1': ['i1']}[c])
+                     if t in {'COPY1:2': ['i1', 'i2'],
+                              'COPY1': ['i1']}.get(c, []))
         if n > 1 + copies:
             v('message-duplicated', f'{t} exists {n} times (copies asked '
               f'for: {copies}): INBOX {inbox}, a {box_a} (answers {conds})')
@@ -107,6 +111,18 @@ def judge(layout, names, deliver, ex, info):
         if n == 'APPEND' and ok[i] and inbox.count('k%d' % i) != 1:
             v('append-incomplete', f'APPEND OK but k{i} stored '
               f'{inbox.count("k%d" % i)} times')
+    # the opposite-direction mover
+    for i, n in enumerate(names):
+        if n == 'MOVE-from-a':
+            if ok[i] and 'a1' in box_a:
+                v('move-incomplete', f'MOVE from a answered OK but a1 is '
+                  f'still there: a {box_a}, INBOX {inbox}')
+            if conds[i] and conds[i][-1] in ('NO', 'BAD') and \
+                    'a1' not in box_a:
+                v('refused-but-changed', f'MOVE 1 INBOX (from a) answered '
+                  f'{conds[i][-1]} but a1 left a: a {box_a}, INBOX {inbox}')
+            if allt.count('a1') > 1:
+                v('message-duplicated', f'a1 exists {allt.count("a1")} times')
     # a command that ends in NO or BAD leaves the contents unchanged
     for i, n in enumerate(names):
         if conds[i] and conds[i][-1] in ('NO', 'BAD') and \
@@ -120,9 +136,11 @@ def judge(layout, names, deliver, ex, info):
 
 
 def task(args):
-    layout, names, bound, cap = args
+    layout, names, bound, cap = args[:4]
+    bonus = args[4] if len(args) > 4 else 0
+    prefixes = args[5] if len(args) > 5 else None
     return mt.explore_pair(layout, names, PROGRAMS, judge, bound, cap=cap,
-                           tag='mt14')
+                           tag='mt14', lock_bonus=bonus, prefixes=prefixes)
 
 
 def tasks(tier):
@@ -130,6 +148,13 @@ def tasks(tier):
     for a in ACTORS:
         for b in OTHERS:
             T.append(('++', (a, b), 1, None))
+    # movers in opposite directions lock the two UID lists in opposite
+    # order: one arbitrary preemption plus one at a lock-file operation
+    # (the schedules below the first-level deviations are spread over the
+    # workers; the root itself is covered by the bound-1 task above)
+    for pr in (('MOVE1', 'MOVE-from-a'), ('MOVE1:2', 'MOVE-from-a')):
+        for chunk in mt.split_prefixes('++', pr, PROGRAMS, 1, 1):
+            T.append(('++', pr, 1, None, 1, chunk))
     if tier != 'quick':
         for a in ACTORS:
             for b in OTHERS:
